@@ -1,5 +1,6 @@
 import Lean.Data.Json
 import AnonModel.Model.Wire
+import AnonModel.Model.WireBn
 /-! Line-protocol handlers for the hand-written codecs (C15): `codec_nonce`, `codec_revlist`, `codec_ver`, `codec_attrvalue`. -/
 open Lean
 namespace AnonModel.Driver
@@ -23,6 +24,11 @@ def wErr : Json := Json.mkObj [("err", Json.bool true)]
 
 def stepWire (op : String) (j : Json) : Option Json :=
   match op with
+  | "bn_hop" =>
+    -- a revealed encoding (decimal string of an integer) after one binary hop of the W3C proof value
+    match j.getObjVal? "z" with
+    | .ok (.str z) => (z.toInt?).map (fun i => Json.str (toString (WireBn.hopBin i)))
+    | _ => none
   | "codec_nonce" =>
     match j.getObjVal? "j" with
     | .ok v => some (match nonceDe (wjsonOf v) with | some s => Json.str s | none => wErr)
